@@ -707,7 +707,9 @@ func (s stringT) Set(k, v Value)            { panic("unsupported") }
 func (s stringT) Len() int                  { return len(s) }
 func (s stringT) Range() func() (Value, Value, bool) {
 	var r []rune
-	for _, v := range s {
+	var o []int
+	for i, v := range s {
+		o = append(o, i)
 		r = append(r, v)
 	}
 	n := 0
@@ -715,7 +717,7 @@ func (s stringT) Range() func() (Value, Value, bool) {
 		if n >= len(r) {
 			return Nil(), Nil(), false
 		}
-		k, v := Int(n), r[n]
+		k, v := Int(o[n]), r[n]
 		n++
 		return k, Int32(v), true
 	}
